@@ -153,6 +153,69 @@ theorem agg_index (g : Agg) (how : How) (m : Option Dir) (xs : List Operand) (ix
     ∃ s, aggregate g how m xs = some s ∧ s.idx = ix ∧ s.vals.length = ix.length := by
   simp [aggregate, h]
 
+/-- what an operand shows at label `t` after alignment: a Series its (reindexed) value, a scalar itself -/
+def lookO (m : Option Dir) (t : Int) : Operand → Option Rat
+  | .ts s => lookR s m t
+  | .num q => q
+
+/-- **value**: the aggregate of Series and scalars is the Series on the joint index of the Series whose value at `t` is
+the NaN-skipping aggregate `Agg.at` (see `count_spec`, `sum_skipna`, `mean_spec`) of what every operand shows at `t` -
+a Series its value after `_df_reindex(·, m)` (`lookR`; NaN where it has no row), a scalar itself at every `t` -/
+theorem agg_value (g : Agg) (how : How) (m : Option Dir) (xs : List Operand) (ix : List Int)
+    (h : joinIndex how (indexesOf xs) = some ix) :
+    aggregate g how m xs = some { idx := ix, vals := ix.map fun t => g.at (xs.map (lookO m t)) } := by
+  simp only [aggregate, h]
+  congr 2
+  apply List.ext_getElem
+  · simp
+  · intro k h1 h2
+    have hk : k < ix.length := by simpa using h1
+    simp only [List.getElem_map, List.getElem_range, List.map_map]
+    congr 1
+    apply List.map_congr_left
+    intro x _
+    cases x with
+    | num q => rfl
+    | ts s =>
+      simp only [Function.comp_def, Operand.at, lookO, reindexR_eq, List.getElem?_map, List.getElem?_eq_getElem hk,
+        Option.map_some, Option.join_some]
+
+/-- reading the aggregate by label -/
+theorem agg_at (g : Agg) (how : How) (m : Option Dir) (xs : List Operand) (s : RSeries)
+    (h : aggregate g how m xs = some s) (t : Int) (ht : t ∈ s.idx) :
+    valueAtR s t = g.at (xs.map (lookO m t)) := by
+  cases hj : joinIndex how (indexesOf xs) with
+  | none => simp [aggregate, hj] at h
+  | some ix =>
+    rw [agg_value g how m xs ix hj] at h
+    cases h
+    obtain ⟨i, hi⟩ := posOf_of_mem ix t ht
+    have h2 := (posOf_some ix t i hi).1
+    simp only [valueAtR, hi, Option.bind_some, List.getElem?_map, h2, Option.map_some, Option.join_some]
+
+/-- a scalar operand counts at every timestamp: `df_sum([a, q]) = a[t] + q` where `a` has data, `q` where it has not
+(the unextended model dropped scalar operands: reviewer's finding r4 C08 2.1) -/
+theorem agg_scalar_sum (how : How) (a : RSeries) (q : Rat) :
+    aggregate .sum how Option.none [.ts a, .num (some q)] =
+      some { idx := a.idx, vals := a.idx.map fun t => some ((valueAtR a t).getD 0 + q) } := by
+  have hj : joinIndex how (indexesOf [.ts a, .num (some q)]) = some a.idx := by cases how <;> rfl
+  rw [agg_value _ _ _ _ _ hj]
+  congr 2
+  apply List.map_congr_left
+  intro t _
+  simp only [List.map_cons, List.map_nil, lookO, lookR]
+  cases valueAtR a t <;> simp [Agg.at, countAt, sumAt, List.filter, Rat.zero_add, Rat.add_zero]
+
+/-- without any Series the aggregate is the scalar aggregate of the scalars -/
+theorem agg_scalars_only (g : Agg) (how : How) (m : Option Dir) (qs : List (Option Rat)) :
+    aggregate g how m (qs.map .num) = Option.none ∧ aggregateNum g (qs.map .num) = g.at qs := by
+  have h1 : indexesOf (qs.map .num) = [] := by
+    induction qs with
+    | nil => rfl
+    | cons q qs ih => simp [indexesOf] at ih ⊢
+  refine ⟨by simp [aggregate, h1, joinIndex], ?_⟩
+  simp [aggregateNum, List.map_map, Function.comp_def]
+
 /-- count = number of operands holding a non-NaN value there -/
 theorem count_spec (vs : List (Option Rat)) : Agg.at .count vs = some (((vs.filterMap id).length : Nat) : Rat) := by
   simp only [Agg.at, countAt]
